@@ -47,7 +47,7 @@ impl World {
                         let s = slot.rem_euclid(edges.len() as i64) as usize;
                         let key = KEY_SLOT | s as u32;
                         let old = edges[s].set(cc);
-                        let old_t = self.m.borrow_mut().objs[owner as usize].edges.insert(key, target);
+                        let old_t = self.m.borrow_mut().edge_insert(owner, key, target);
                         Ok((old, old_t))
                     }
                 }
@@ -76,7 +76,7 @@ impl World {
             edges[s].take().map(|cc| (cc, KEY_SLOT | s as u32))
         };
         if let Some((cc, key)) = taken {
-            let t = self.m.borrow_mut().objs[owner as usize].edges.remove(&key).expect("mirror edge");
+            let t = self.m.borrow_mut().edge_remove(owner, key).expect("mirror edge");
             self.drop_cc(cc, t, "a field cleared by the program");
         }
     }
@@ -332,7 +332,7 @@ impl World {
         };
         let cap = captured.and_then(|ci| self.clone_root(ci)).map(|(cc, t)| {
             let key = KEY_CAP | uid;
-            self.m.borrow_mut().objs[map_id as usize].edges.insert(key, t);
+            self.m.borrow_mut().edge_insert(map_id, key, t);
             Edge::new(map_id, key, Some(cc))
         });
         let pred = first && self.predict_trigger();
@@ -771,6 +771,78 @@ impl World {
         }
         if let Some(op) = bad {
             self.fail("O-FWD.op", format!("{} on Cc<T> differs from the same operation on T (objects {} and {})", op, oi, oj));
+        }
+    }
+
+    /// Stores `n` clones of the target in the owner's (traced) bulk vector.
+    pub fn bulk_edges(&self, owner_idx: usize, target_idx: usize, n: u32) {
+        let owner = self.m.borrow().root_obj[owner_idx].unwrap();
+        let target = self.m.borrow().root_obj[target_idx].unwrap();
+        let _busy = self.busy(owner_idx);
+        let Some(node) = self.node_of_root(owner_idx) else { return };
+        let p = self.root_ptr(target_idx);
+        let cur = World::count(&self.m.borrow(), target);
+        let k = n.min(MAX_STRONG.saturating_sub(cur));
+        let base = node.bulk.borrow().len() as u32 + self.m.borrow().objs[owner as usize].pins_next; // unique keys
+        let mut v: Vec<Edge> = Vec::with_capacity(k as usize);
+        self.lib(LibCall::Clone, || {
+            for i in 0..k {
+                v.push(Edge::new(owner, KEY_BULK | (base + i), Some(crate::map_cc!(unsafe { &*p }, c => c.clone()))));
+            }
+        });
+        {
+            let mut m = self.m.borrow_mut();
+            for i in 0..k {
+                m.edge_insert(owner, KEY_BULK | (base + i), target);
+            }
+            m.objs[owner as usize].pins_next += k;
+            m.buf_model.remove(&target);
+        }
+        node.bulk.borrow_mut().append(&mut v);
+        self.stats.borrow_mut().add("bulk_traced_edges", k as u64);
+        if n > k {
+            self.stats.borrow_mut().bump("limit_reached_by_clone");
+            let _ = self.clone_root(target_idx);
+        }
+    }
+
+    pub fn bulk_edges_drop(&self, owner_idx: usize, n: u32) {
+        let _busy = self.busy(owner_idx);
+        let Some(node) = self.node_of_root(owner_idx) else { return };
+        let v: Vec<Edge> = {
+            let mut b = node.bulk.borrow_mut();
+            let k = (n as usize).min(b.len());
+            let at = b.len() - k;
+            b.split_off(at)
+        };
+        drop(v); // each Edge reports its own death
+        self.sync();
+    }
+
+    /// Debug formatting through `n` nested Cc pointers (objects outside the mirror, created and released on the spot).
+    pub fn debug_chain(&self, n: u32) {
+        let auto_was = compat::cfg_read().map(|c| c.0);
+        if auto_was == Some(true) {
+            compat::cfg_set_auto(false);
+        }
+        let n = n.clamp(1, 400);
+        let mut head: Option<Cc<Nest>> = None;
+        let mut phead: Option<Box<plain::Nest>> = None;
+        for k in 0..n {
+            head = Some(Cc::new(Nest { key: k, next: head.take() }));
+            phead = Some(Box::new(plain::Nest { key: k, next: phead.take() }));
+        }
+        let (a, b) = (format!("{:?}", head.as_ref().unwrap()), format!("{:?}", phead.as_ref().unwrap()));
+        let (c, d) = (format!("{:#?}", head.as_ref().unwrap()), format!("{:#?}", phead.as_ref().unwrap()));
+        drop(head);
+        if auto_was == Some(true) {
+            compat::cfg_set_auto(true);
+        }
+        self.sync();
+        self.stats.borrow_mut().bump("debug_chain_formatted");
+        if a != b || c != d {
+            let at = a.bytes().zip(b.bytes()).position(|(x, y)| x != y).unwrap_or(a.len().min(b.len()));
+            self.fail("O-FWD.debug-nested", format!("Debug output of a chain of {} nested Cc differs from the same chain of plain values (first difference at byte {})", n, at));
         }
     }
 
